@@ -5,7 +5,9 @@ CONSTANTS
   NoForeignLen = 4
   OtherLen = 2
   WrapLen = 3
+  ShareLen = 3
   MatchKey = "annotation"
+  ClipKey = "uuid"
   ClipValidator = "after"
 CONSTRAINT Export
 INVARIANT ImplIffValid
